@@ -221,7 +221,14 @@ def gen_enum(rng, idx):
     if elt: variants += [rng.choice(["H(Option<&'a u8>)", "H(std::borrow::Cow<'a, str>, i64)", "H(Vec<&'a u8>)"])] + (["I { r: Option<&'a String>, n: i64 }"] if rng.random() < 0.5 else [])
     if ecn: variants += [rng.choice(["J([u8; N])", "J([[i64; N]; 2])"])]
     rng.shuffle(variants)
-    gen = '<' + ', '.join((["'a"] if elt else []) + (['T'] if tp else []) + (['const N: usize'] if ecn else [])) + '>' if (tp or elt or ecn) else ''
+    # the bounds of T: none, inline, in a where clause; a where-clause item over a compound type with a trait nothing implies (as for structs)
+    estyle = ['none', 'inline', 'where', 'inline'][(idx // 3) % 4] if tp else 'none'
+    tdecl = 'T: Clone + PartialEq' if estyle == 'inline' else 'T'
+    ewl = (['T: Clone + std::fmt::Debug'] if estyle == 'where' else []) + ([rng.choice(['Vec<T>: Marker', '(T,): Marker', '[T; 2]: Marker', '(T, T): Marker'])] if tp and rng.random() < 0.4 else [])
+    ewhere = ('\nwhere ' + ', '.join(ewl) + (',' if rng.random() < 0.5 else '') + '\n') if ewl else ''
+    gen = '<' + ', '.join((["'a"] if elt else []) + ([tdecl] if tp else []) + (['const N: usize'] if ecn else [])) + '>' if (tp or elt or ecn) else ''
+    gen_args = '<' + ', '.join((["'a"] if elt else []) + (['T'] if tp else []) + (['N'] if ecn else [])) + '>' if (tp or elt or ecn) else ''
+    gen_mk = '<' + ', '.join((["'a"] if elt else []) + (['T: Mk' + (' + Clone + PartialEq' if estyle == 'inline' else '')] if tp else []) + (['const N: usize'] if ecn else [])) + '>' if (tp or elt or ecn) else ''
     arms = []
     for k, v in enumerate(variants):
         vn = v[0]
@@ -242,14 +249,14 @@ def gen_enum(rng, idx):
     vlines = [(f"    {rng.choice(DOCS).strip()}\n" if rng.random() < 0.2 else '') + f"    {v}" for v in variants]
     enum_body = ',\n'.join(vlines) + (',\n' if last_comma else '\n')
     euse = ''
-    src = (rng.choice(DOCS) + "#[derive(Debug, Clone, PartialEq, Difference)]\n#[cfg_attr(feature = \"sd\", derive(serde::Serialize, serde::Deserialize))]\n" + eattr + f"pub enum {name}{gen} {{\n" + enum_body + "}\n"
-           + euse + "impl" + (gen.replace('T', 'T: Mk') if tp else gen) + f" Mk for {name}" + (gen.replace('const N: usize', 'N') if gen else '') + f" {{\n    fn mk(s: u64) -> Self {{\n        match s % {len(variants)} {{\n" + '\n'.join(arms[:-1]) + ('\n' if len(arms) > 1 else '')
+    src = (rng.choice(DOCS) + "#[derive(Debug, Clone, PartialEq, Difference)]\n#[cfg_attr(feature = \"sd\", derive(serde::Serialize, serde::Deserialize))]\n" + eattr + f"pub enum {name}{gen}{ewhere} {{\n" + enum_body + "}\n"
+           + euse + "impl" + gen_mk + f" Mk for {name}" + gen_args + (' where ' + ', '.join(ewl) if ewl else '') + f" {{\n    fn mk(s: u64) -> Self {{\n        match s % {len(variants)} {{\n" + '\n'.join(arms[:-1]) + ('\n' if len(arms) > 1 else '')
            + arms[-1].replace(f"            {len(arms) - 1} =>", "            _ =>") + "\n        }\n    }\n}\n"
            + f"pub fn test() -> Result<(), String> {{\n    for seed in 0..12u64 {{\n        let a: {inst} = Mk::mk(seed);\n        let b: {inst} = Mk::mk(seed / 2 + 1);\n        let d = a.diff(&b);\n"
            + "        if (a == b) != d.is_empty() { return Err(format!(\"enum diff empty={} but equal={}\", d.is_empty(), a == b)); }\n        if d.len() > 1 { return Err(format!(\"enum diff has {} entries\", d.len())); }\n"
            + "        let r = a.clone().apply(d);\n        if r != b { return Err(format!(\"enum round trip: {:?} != {:?}\", r, b)); }\n"
            + "        let dr: Vec<_> = a.diff_ref(&b).into_iter().map(Into::into).collect();\n        if a.clone().apply(dr) != b { return Err(format!(\"enum diff_ref round trip\")); }\n    }\n    Ok(())\n}\n")
-    return name, src, ['enum'] + (['enum_generic'] if tp else []) + (['lifetime', 'enum_lifetime'] if elt else []) + (['const_generic', 'enum_const_generic'] if ecn else [])
+    return name, src, ['enum'] + (['enum_generic'] if tp else []) + (['enum_where_clause'] if ewl else []) + (['where_on_compound_type'] if any('Marker' in w for w in ewl) else []) + (['lifetime', 'enum_lifetime'] if elt else []) + (['const_generic', 'enum_const_generic'] if ecn else [])
 
 SUPPORT = r'''
 //! support code of the declaration harness (C17): values for arbitrary field types
